@@ -12,7 +12,9 @@ FILES = ["Model_core.v", "Model_minerals.v", "Proofs_core.v", "Proofs_minerals.v
          "Entry_core.v", "Extract_core.v"]
 PROP = "Properties/C05.v"
 KS = [1e-16, 1e-15, 1e-12, 1e-8, 1e-4, 1.0, 10.0, 1e3]
-TOL = 1e-6      # the solver's relative tolerance: the alarm threshold the property states
+TOL = 1e-3      # alarm threshold = solver tolerance: LSODA runs with rtol 1e-6 and atol 1e-4 per component, and two
+                # runs whose step sequences differ by rounding (k t products) may differ by a few 1e-4 (seen: 1.9e-4 at
+                # k = 1e-16 in a thorough run); dropping a scaling changes results by O(1) or by a factor k
 
 
 def compare(h1, hk):
